@@ -252,7 +252,8 @@ def monitor (thresh : Nat) (msgs : List PMsg) (rcvs : List PRcv) (log : List Log
         let tagk := if r.tag = -1 then "anytag" else "sametag"
         let side := if thresh = 0 then "onemailbox"
           else if (decide (m1.size < thresh)) = (decide (m2.size < thresh)) then "sameside" else "mixedsizes"
-        some s!"overtake {tagk} {side}: receive {r.rid} (rank {r.rank}, src {r.src} tag {r.tag}, posted #{r.pord}) got message {m2.mid} (size {m2.size}, tag {m2.tag}, send #{m2.sord} of rank {m2.src}) although the earlier message {m1.mid} (size {m1.size}, tag {m1.tag}, send #{m1.sord}) matches it and went to the later receive {r1.rid} (posted #{r1.pord})"
+        let tr := if r.buf < m1.size then "trunc" else "fits"
+        some s!"overtake {tagk} {side} {tr}: receive {r.rid} (rank {r.rank}, src {r.src} tag {r.tag}, posted #{r.pord}) got message {m2.mid} (size {m2.size}, tag {m2.tag}, send #{m2.sord} of rank {m2.src}) although the earlier message {m1.mid} (size {m1.size}, tag {m1.tag}, send #{m1.sord}) matches it and went to the later receive {r1.rid} (posted #{r1.pord})"
       | none => none
 
 end SgVerif.C28
